@@ -80,6 +80,10 @@ def check_removal(case, exclude=True):
     spec2 = copy.deepcopy(case['spec'])
     spec2['tasks'] = [x for x in spec2['tasks'] if x['id'] not in gone]
     spec2['links'] = [l for l in spec2['links'] if l[0] not in gone and l[1] not in gone]
+    if spec2.get('ext'):
+        for e in spec2['ext']:
+            e['succ'] = [x for x in e['succ'] if x not in gone]
+        spec2['ext'] = [e for e in spec2['ext'] if e['succ']]
     case2 = dict(case, spec=spec2)
     o2 = sched.run(case2)
     if o2.error is not None or not sched.complete(o2):
